@@ -33,6 +33,7 @@ func checkC02(c *Ctx) {
 	r.Rule("R02.6", "the pooled formatting buffer is used by one record at a time: it is returned to the pool only after the Write that hands its bytes to the destination (Put post-dominates the emission), and is not used after Put")
 	r.Rule("R02.7", "a destination that reported success gets no further record: every call from the sink or its failure helpers back into the logging entry points is on the taken edge of e != nil where every definition reaching e is the error result of the destination's Write (followed through error parameters over all static call sites)")
 	r.Rule("R02.8", "constant positions are within the tested length: in every function of the print tree an index or re-slice at a constant position of a slice or string is dominated by length tests (len(x) against constants in any relation and polarity, constant prefix/suffix tests, non-empty tests) or a definition (constant, make, constant re-slice, Split) that establish at least that length")
+	r.Rule("R02.9", "a nil context never has a method called on it: for every method call on a context.Context value on the print path, every origin of the receiver (through parameters over all static call sites, and joins) is a value made by package context or the raw parameter on the not-nil side of a test of that parameter")
 	r.Assume("destinations do not split or retain the payload; values whose own methods panic are outside the property")
 	for _, tags := range c.Configs([]string{""}, []string{"", "verbose", "hint", "verbose,hint"}) {
 		p := c.Prog(tags)
@@ -52,6 +53,7 @@ func checkC02(c *Ctx) {
 		c02Pool(c, p, m)
 		noDiagnosticOnSuccess(c, p, m)
 		constBounds(c, p, m)
+		nilContextSafe(c, p, m, "R02.9")
 		callerArgsUntouched(c, p, "R10.7")
 		c03Routing(c, p, m)
 		c01Gates(c, p, m, tags)
@@ -66,6 +68,10 @@ func checkC02(c *Ctx) {
 	c.Floor["R02.2"] = 3
 	c.Floor["R02.3"] = 3
 	c.Floor["R02.5"] = 30
+	c.Floor["R02.7"] = 1
+	c.Floor["R02.8"] = 15
+	c.Floor["R02.9"] = 1
+	c.Floor["R10.7"] = 10
 }
 
 func spineSorted(m *Model) []*ssa.Function {
@@ -551,7 +557,7 @@ func c02Pool(c *Ctx, p *Prog, m *Model) {
 		if len(gets) == 0 && len(puts) == 0 {
 			continue
 		}
-		if shortName(fn) == "init$1" || strings.HasPrefix(shortName(fn), "init") {
+		if p.startupOnly(fn) {
 			continue // warm-up
 		}
 		n++
